@@ -271,16 +271,30 @@ def run_names_case(ctx, ref, cfg, detail):
             for a, d2 in d1.items():
                 for b, k in d2.items():
                     flat[(lvl, a, b)] = k
+        # what the later stages need of the table (not its exact shape):
+        # every unordered leaf pair, asked for in sorted orientation as
+        # leaves_to_compare does, resolves to its own row below n_pairs, and
+        # that row is the pair the marker finder scores there (idx_to_pair)
+        resolved = {}
+        unresolved = None
+        for a, b in all_pairs:
+            try:
+                resolved[(a, b)] = int(_idx_of_pair(pair_to_idx, leaf_level,
+                                                    a, b))
+            except Exception as e:   # noqa
+                unresolved = (a, b, c09.classify(e))
         if r_genes != list(stats['col_names']):
             viol('ref-gene-names', 'gene_names of the reference-marker file '
                  'differ from col_names of the statistics file')
-        elif n_pairs != len(all_pairs) or \
-                sorted(flat.values()) != list(range(n_pairs)) or \
-                set(flat.keys()) != set((leaf_level, a, b)
-                                        for a, b in all_pairs):
-            viol('pair-to-idx', 'pair_to_idx is not a bijection from the '
-                 'unordered leaf pairs onto 0..n_pairs-1')
-        elif any(tuple(idx_to_pair[k]) != key for key, k in flat.items()):
+        elif unresolved is not None:
+            viol('pair-to-idx', 'leaf pair %r is not in pair_to_idx (%s)'
+                 % (unresolved[:2], unresolved[2]))
+        elif len(set(resolved.values())) != len(all_pairs) or any(
+                not (0 <= k < n_pairs) for k in resolved.values()):
+            viol('pair-to-idx', 'two leaf pairs share a row of the marker '
+                 'tables, or a row is outside 0..n_pairs-1')
+        elif any(tuple(idx_to_pair[k])[1:] != key
+                 for key, k in resolved.items()):
             viol('pair-to-idx-inverse', 'pair_to_idx is not the inverse of '
                  'idx_to_pair')
         if ctx.driver_ok:
